@@ -57,7 +57,7 @@ NewStream == [sent |-> 0, granted |-> 0, grantedE |-> 0, arrived |-> 0, consumed
               finE |-> FALSE, closeE |-> FALSE, rfinE |-> FALSE, finD |-> FALSE, closeD |-> FALSE, rfinD |-> FALSE,
               closeP |-> FALSE, rfinP |-> FALSE, cls |-> "open"]
 Ensure(f, k) == IF k \in DOMAIN f THEN f ELSE f @@ (k :> NewStream)
-Misc0 == [allDropped |-> FALSE, faulted |-> FALSE, apiPairs |-> {}, lfin |-> {}]
+Misc0 == [allDropped |-> FALSE, faulted |-> FALSE, apiPairs |-> {}, lfin |-> {}, fkind |-> "", fdir |-> 0, early |-> FALSE]
 Inc(c, k) == Put(c, k, Get(c, k, 0) + 1)
 
 Init == /\ l = 1 /\ cfg = <<>> /\ fly = <<<<>>, <<>>>> /\ hdrE = <<None, None>> /\ hdrD = <<None, None>>
@@ -390,8 +390,9 @@ Quiescent ==
                           <<live /\ connDead # {}, "C10", "connect still pending although the remote listener is known to be gone">>,
                           <<live /\ accStuck # {}, "C10", "listener does not accept although a request is queued and a port is free">>,
                           <<live /\ ~PairsOK, "C10", "accepted port pair differs from the pairing on the wire">>>>) IN
-       bad' = IF why = <<>> THEN bad ELSE Flag(why[1], why[2])
-    /\ UNCHANGED <<cfg, fly, hdrE, hdrD, pair, st, ops, pend, reqs, poolKey, lastPool, ended, gone, cnt, misc>>
+       /\ bad' = (IF why = <<>> THEN bad ELSE Flag(why[1], why[2]))
+       /\ misc' = [misc EXCEPT !.early = @ \/ (settled /\ ~Has("late"))]
+    /\ UNCHANGED <<cfg, fly, hdrE, hdrD, pair, st, ops, pend, reqs, poolKey, lastPool, ended, gone, cnt>>
 
 Livelock ==
     /\ Is("livelock")
@@ -408,7 +409,7 @@ AllDropped ==
     /\ UNCHANGED <<cfg, fly, hdrE, hdrD, pair, st, ops, pend, reqs, poolKey, lastPool, ended, gone, cnt, bad>>
 
 Fault ==
-    /\ Is("fault") /\ misc' = [misc EXCEPT !.faulted = TRUE]
+    /\ Is("fault") /\ misc' = [misc EXCEPT !.faulted = TRUE, !.fkind = IF @ = "" /\ Has("dir") THEN Ev.kind ELSE @, !.fdir = IF @ = 0 /\ Has("dir") THEN Ev.dir ELSE @]
     /\ UNCHANGED <<cfg, fly, hdrE, hdrD, pair, st, ops, pend, reqs, poolKey, lastPool, ended, gone, cnt, bad>>
 
 RunEnd ==
@@ -421,6 +422,9 @@ RunEnd ==
                           <<healthyFail /\ Ev.res = "protocol", "C02", "dispatcher ended with a protocol error between two unmodified endpoints">>,
                           <<healthyFail /\ Ev.res = "protocol", "C10", "dispatcher ended with a protocol error between two unmodified endpoints">>,
                           <<healthyFail /\ Ev.res = "protocol", "C11", "dispatcher ended with a protocol error between two unmodified endpoints">>,
+                          <<misc.early /\ misc.fkind = "sink_err" /\ Ev.ep = misc.fdir /\ Ev.res # "sink", "C06", "dispatcher whose sink failed did not terminate with the sink error">>,
+                          <<misc.early /\ misc.fkind = "stream_err" /\ Ev.ep = Oth(misc.fdir) /\ Ev.res # "stream", "C06", "dispatcher whose stream failed did not terminate with the stream error">>,
+                          <<misc.early /\ misc.fkind = "stream_end" /\ Ev.ep = Oth(misc.fdir) /\ Ev.res # "closed", "C06", "dispatcher whose stream ended did not terminate with end-of-stream">>,
                           <<misc.faulted /\ Ev.res = "running", "C06", "dispatcher still running after the transport failed and the timeout elapsed">>>>) IN
        bad' = IF why = <<>> THEN bad ELSE Flag(why[1], why[2])
     /\ UNCHANGED <<cfg, fly, hdrE, hdrD, pair, st, ops, pend, reqs, poolKey, lastPool, gone, cnt, misc>>
